@@ -75,6 +75,9 @@ def _env(extra=None):
             e.pop(k, None)
         else:
             e[k] = v
+    supp = os.environ.get("VERIF_TSAN_SUPP")
+    if supp:   # recorded (known) races of the property under check: suppressed by call site, counted at exit
+        e["TSAN_OPTIONS"] += ":suppressions=%s:print_suppressions=1" % supp
     if extra:
         e.update(extra)
     return e
